@@ -408,7 +408,11 @@ func (x *pexec) doWrite(op *Op) string {
 		return "skip"
 	}
 	src := x.take(op.N)
-	p := append([]byte(nil), src...)
+	// the caller's chunk buffer: an own copy (with spare capacity for every
+	// second length) that is overwritten after the call, as a caller that
+	// reuses its buffer does; io.Writer forbids Write to retain it
+	p := make([]byte, len(src), len(src)+8*(1-len(src)%2))
+	copy(p, src)
 	exp := x.bc.BufferSize - x.held()
 	if exp < 0 {
 		exp = 0
@@ -430,6 +434,9 @@ func (x *pexec) doWrite(op *Op) string {
 	}
 	if !bytes.Equal(p, src) {
 		x.fail("C15", "write_modifies_argument", "", "Write modified the caller's slice")
+	}
+	for i := range p {
+		p[i] ^= 0x5a
 	}
 	if n != exp {
 		x.fail("C15", "write_count", "", "Write(len %d) with %d of %d bytes held returned n=%d, want %d", len(p), x.held(), x.bc.BufferSize, n, exp)
